@@ -7,7 +7,7 @@
 From stdpp Require Import gmap list.
 From Coq Require Import NArith ZArith.
 From VFS Require Import Core.Types Core.Prog Core.Calls Base.MemFS Base.Handles Base.Store Layer.VfsPath Layer.Overlay Layer.Config Layer.Run
-  Spec.Tree Proofs.MemProofs Proofs.MemPublic Proofs.OvlProofs Proofs.OvlList Proofs.OvlLife Proofs.CopyFile Proofs.OvlAppend Proofs.OvlDeep.
+  Spec.Tree Proofs.MemProofs Proofs.MemPublic Proofs.ConcProofs Proofs.OvlProofs Proofs.OvlList Proofs.OvlLife Proofs.CopyFile Proofs.OvlAppend Proofs.OvlDeep.
 
 Notation mstate := (gmap (list (list N)) memfile).
 
@@ -172,6 +172,26 @@ Theorem C09_create_dir_occupied_any_depth : forall lg ft (s0 s1 : mstate) hs (p 
     wf s0' /\ forall q, view s0' s1 q = view s0 s1 q.
 Proof. exact create_dir_occupied_deep. Qed.
 
+(** remove_file on a FILE the view shows - served from the write layer, the lower layer, or both: exactly
+    that entry vanishes from the view, every other path of the caller's namespace shows what it showed.
+    [no_collision p]: no directory on the way to p's marker is itself some entry's marker path - it
+    fails exactly when an ancestor's name ends in the marker suffix, which is finding D28 (second
+    statement).  The hypothesis on p's own marker is the invariant between calls. *)
+Theorem C09_remove_file_any_depth : forall lg ft (s0 s1 : mstate) hs (p : path) (b : list N),
+  wf s0 -> p <> [] -> user_path p -> no_collision p ->
+  (is_Some (s0 !! p) -> s0 !! whiteout_path (v0, []) p = None) ->
+  view s0 s1 p = Some (NFile b) ->
+  Forall (not_file s0) (prefixes (removelast (whiteout_path (v0, []) p))) ->
+  exists s0',
+    run bhandler (ovl_impl (v0, []) [(v1, [])] (CRemoveFile p)) (mstore2 s0 s1 hs lg ft) =
+      (mstore2 s0' s1 (hs ++ [HClosed]) lg ft, Ok tt) /\
+    wf s0' /\
+    forall q, user_path q -> view s0' s1 q = if decide (q = p) then None else view s0 s1 q.
+Proof. exact remove_file_deep. Qed.
+
+Theorem C09_collision_hypothesis_is_needed : ~ no_collision [[97%N] ++ wo_suffix; [120%N]].
+Proof. exact collision_example. Qed.
+
 (** non-vacuity: /a/b exists in the lower layer only; create_dir /a/b/c copies the chain up and shows c *)
 Example C09_any_depth_example :
   let dirn := mkMemFile Dir [] TAuto (Some TAuto) (Some TAuto) in
@@ -221,3 +241,5 @@ Print Assumptions C09_create_dir_any_depth.
 Print Assumptions C09_create_file_any_depth.
 Print Assumptions C09_create_dir_occupied_any_depth.
 Print Assumptions C09_any_depth_example.
+Print Assumptions C09_remove_file_any_depth.
+Print Assumptions C09_collision_hypothesis_is_needed.
